@@ -286,6 +286,31 @@ def getSyntax {σ : Type} (byExt : List Char → Option σ) (fallback : σ)
 
 
 
+/-! ## `set_options`: "minus styles get syntax highlighting iff side-by-side"
+
+The one place outside the painter that turns a style which does not ask for `syntax` into one that
+does. Which options it touches and which command-line options prevent it is generated
+(`sbsStyleRewrites`); `userSupplied name` = the option was given on the command line. -/
+
+/-- Strip `pre` from the front of `v`. -/
+def stripPrefix? : List Char → List Char → Option (List Char)
+  | [], v => some v
+  | _ :: _, [] => none
+  | p :: ps, c :: cs => if p = c then stripPrefix? ps cs else none
+
+/-- Value of style option `name` after the HACK block. -/
+def sbsRewrite (sideBySide : Bool) (userSupplied : String → Bool) (name : String)
+    (value : List Char) : List Char :=
+  match sbsStyleRewrites.find? (fun e => e.1 == name) with
+  | none => value
+  | some e =>
+    if sideBySide && !(e.2.all userSupplied) then
+      match stripPrefix? sbsRewritePrefix.toList value with
+      | some rest => sbsRewriteReplacement.toList ++ rest
+      | none => value
+    else value
+
+
 /-!
 ## Lifetime of the highlighter (`Painter::syntax`, `Painter::highlighter`)
 
